@@ -895,6 +895,8 @@ func TestC17(t *testing.T) {
 		ID:     "C17",
 		Level:  "exploration",
 		Bubble: true,
+		// a case (8 scenarios) normally takes ~0.2 s; the real-time watchdog only has to survive an oversubscribed machine
+		CaseTimeout: 10 * time.Minute,
 		Rule: "every case is one testing/synctest bubble with a fresh Node (not run; Config.HistoryMetaTTL 4 s..60 s or the 30 d default) and a standalone centrifuge.NewMemoryBroker with a recording BrokerEventHandler, hosting 8 scenarios on distinct channels. " +
 			"3 of 4 scenarios are sequential: 12-45 random operations over 1-3 channels - Publish (HistorySize 1-6, HistoryTTL 1-30 s, HistoryMetaTTL option 2-40 s or the Config default, 1 in 10 without history), " +
 			"History (since nil / 0 / top / top+1 / beyond / around the oldest retained offset, correct / empty / foreign epoch; limit -1,0,1,2,3,len+1; reverse; MetaTTL option), RemoveHistory, and virtual-clock jumps to 1 s (or 1-2.5 s) before and after a pending TTL / meta-TTL deadline followed by a full read, plus random sleeps of 1-4000 ms - " +
